@@ -221,25 +221,18 @@ Print Assumptions C13_rand_nan_before_fix_refuted.
 (* ---------- hsl ---------- *)
 (* docs/builtins.md: hsl:string hue:num [saturation:num [lightness:num [alpha:num]]];
    "hue must be between 0 and 360", the others "between 0 and 100", defaults
-   100 / 50 / 100, result a CSS hsl function string.
-   The corrected function (documented range test): *)
-Theorem C13_hsl_fixed_spec : forall o nums,
-  ((List.length nums = 0 \/ 5 <= List.length nums)%nat -> hsl_fixed o nums = OPanic BadArguments) /\
+   100 / 50 / 100, result a CSS hsl function string. The model in force
+   (hslFunc since 1433667): the documented panic for 0 or >= 5 arguments and for
+   any value outside its range — NaN included; otherwise the documented text *)
+Theorem C13_hsl_spec : forall o nums,
+  ((List.length nums = 0 \/ 5 <= List.length nums)%nat -> hsl_model o nums = OPanic BadArguments) /\
   ((1 <= List.length nums <= 4)%nat ->
-   hsl_fixed o nums =
+   hsl_model o nums =
    if hsl_args_ok nums
    then ORet (VStr (hsl_text o (nth 0 nums fc_zero) (nth 1 nums fc_100) (nth 2 nums fc_50) (nth 3 nums fc_100)))
    else OPanic BadArguments).
-Proof. intros o nums. split; [apply hsl_arg_count | apply hsl_fixed_spec]. Qed.
-Print Assumptions C13_hsl_fixed_spec.
-
-(* the code (`x < 0 || x > max` is the error case): the same for all numbers —
-   every argument list without a NaN — and the same argument-count panic *)
-Theorem C13_hsl_guarded : forall o nums,
-  ((List.length nums = 0 \/ 5 <= List.length nums)%nat -> hsl_model o nums = OPanic BadArguments) /\
-  (Forall (fun x => is_nan x = false) nums -> hsl_model o nums = hsl_fixed o nums).
 Proof. intros o nums. split; [apply hsl_arg_count | apply hsl_model_spec]. Qed.
-Print Assumptions C13_hsl_guarded.
+Print Assumptions C13_hsl_spec.
 
 Theorem C13_hsl_defaults : forall o h sa l,
   hsl_model o [h] = hsl_model o [h; fc_100; fc_50; fc_100] /\
@@ -248,13 +241,17 @@ Theorem C13_hsl_defaults : forall o h sa l,
 Proof. exact hsl_defaults. Qed.
 Print Assumptions C13_hsl_defaults.
 
-(* NaN is not "between 0 and 360", yet every range test of the code lets it pass *)
-Theorem C13_hsl_nan_refuted : forall o,
-  hsl_in_range fc_nan fc_360 = false /\
-  hsl_model o [fc_nan] = ORet (VStr (hsl_text o fc_nan fc_100 fc_50 fc_100)) /\
-  hsl_fixed o [fc_nan] = OPanic BadArguments.
-Proof. intros o. vm_compute. repeat split; reflexivity. Qed.
-Print Assumptions C13_hsl_nan_refuted.
+Theorem C13_hsl_nan_panics : forall o, hsl_in_range fc_nan fc_360 = false /\ hsl_model o [fc_nan] = OPanic BadArguments.
+Proof. intros o. vm_compute. split; reflexivity. Qed.
+Print Assumptions C13_hsl_nan_panics.
+
+(* regression (fixed by 1433667): the old tests `x < 0 || x > max` let NaN pass —
+   and differed from the model in force ONLY there *)
+Theorem C13_hsl_nan_before_fix_refuted : forall o,
+  hsl_before_fix o [fc_nan] = ORet (VStr (hsl_text o fc_nan fc_100 fc_50 fc_100)) /\
+  (forall nums, Forall (fun x => is_nan x = false) nums -> hsl_before_fix o nums = hsl_model o nums).
+Proof. intros o. split; [vm_compute; reflexivity | apply hsl_before_fix_agrees]. Qed.
+Print Assumptions C13_hsl_nan_before_fix_refuted.
 
 (* ---------- repr: keys ---------- *)
 (* model in force (lexer.IsIdent since 09cb4c8): a key is printed bare iff it is
